@@ -76,8 +76,8 @@ func (bc *Bytecode) fixObjects(modules *ugo.ModuleMap) error {
 				continue
 			}
 
-			bmod := modules.Get(string(name))
-			if bmod == nil {
+			bmod, ok := modules.Get(string(name)).(*ugo.BuiltinModule)
+			if !ok {
 				return fmt.Errorf("module '%s' not found", name)
 			}
 
@@ -87,7 +87,7 @@ func (bc *Bytecode) fixObjects(modules *ugo.ModuleMap) error {
 					// module name may not present in given map, skip it.
 					continue
 				}
-				o := bmod.(*ugo.BuiltinModule).Attrs[item]
+				o := bmod.Attrs[item]
 				// if item not exists in module, nil will not pass type check
 				want := reflect.TypeOf(obj[item])
 				got := reflect.TypeOf(o)
